@@ -5,7 +5,8 @@ PROP = dict(
     coq_targets=["theories/C07/Check.vo", "theories/C07/Props.vo"],
     theorems=["model_locations_are_the_masters", "tents_valid", "scalar_in_unit", "own_scalar_one",
               "later_has_no_influence", "deltas_reproduce_exact", "deltas_reproduce_rounded",
-              "default_exact", "default_exact_integer", "result_independent_of_supply_order"],
+              "default_exact", "default_exact_integer", "result_independent_of_supply_order",
+              "tents_stay_in_range"],
     prelude="From FV.C07 Require Import Model Check.\nFrom Coq Require Import List ZArith QArith Bool.",
     harness_args=lambda tier, seed: ["--seed", str(seed), "--n", str(N[tier])],
     shard=40,
